@@ -27,11 +27,14 @@ package header
 //@ extern strings.TrimLeft
 //@   pure
 //@ func (*responseWriterWrapper).delHeader
+//@   modifies responseWriterWrapper.ops, E:github.com/tmpim/casket/caskethttp/header.headerOperation
+//@   requires rww != nil && rww.ResponseWriterWrapper != nil
 //@ func (*responseWriterWrapper).Header
+//@   requires rww != nil && rww.ResponseWriterWrapper != nil
 //@   ensures result != nil
 //@ func (Headers).ServeHTTP
 //@   requires w != nil && r != nil && r.URL != nil && h.Next != nil
-//@   modifies ghost:nextCalls, ghost:nextRet
+//@   modifies ghost:nextCalls, ghost:nextRet, responseWriterWrapper.ops, E:github.com/tmpim/casket/caskethttp/header.headerOperation
 //@   ensures [passes_on_once_returns_its_answer_sends_nothing] nextCalls == old(nextCalls) + 1 && result0 == nextRet && hw == old(hw) && bodyWrites == old(bodyWrites)
 //@   loop 1 invariant nextCalls == old(nextCalls) && hw == old(hw) && bodyWrites == old(bodyWrites)
 //@   loop 2 invariant nextCalls == old(nextCalls) && hw == old(hw) && bodyWrites == old(bodyWrites)
